@@ -584,6 +584,18 @@ fn tier_d(rep: &mut Report, thorough: bool) {
         r
     });
 
+    // width of the array length field: the longest array of a column has 255 / 256 / 65535 /
+    // 65536 / 70000 bytes (length field of 1, 2 or 3 bytes), next to short arrays and an integer
+    let mut al: Vec<(StoreKind, usize, usize)> = vec![];
+    for kind in [StoreKind::Plain, StoreKind::Indexed] {
+        for prefix in [0usize, 2, 31] {
+            for long in [255usize, 256, 65_535, 65_536, 70_000] {
+                al.push((kind, prefix, long));
+            }
+        }
+    }
+    run_cases(rep, &al, |(kind, prefix, long)| arraylen_case(*kind, *prefix, *long));
+
     // tails around 65535 bytes (indexed value store, 2-byte values => offsets of 2 bytes)
     let counts: Vec<usize> = if thorough {
         vec![32_000, 32_760, 32_761, 32_762, 32_763, 32_764, 32_767]
@@ -591,6 +603,27 @@ fn tier_d(rep: &mut Report, thorough: bool) {
         vec![32_762, 32_763]
     };
     run_cases(rep, &counts, |count| tail_case(*count));
+}
+
+fn arraylen_case(kind: StoreKind, prefix: usize, long: usize) -> CaseResult {
+    let schema = SchemaSpec {
+        stores: vec![kind],
+        common: vec![PropSpec::A { prefix, store: 0 }, PropSpec::U],
+        variants: vec![],
+        sort: None,
+    };
+    let long_value: Vec<u8> = (0..long).map(|i| (i % 251) as u8 ^ (i / 251) as u8).collect();
+    let values: Vec<Vec<u8>> = vec![b"ab".to_vec(), long_value, vec![], b"abcdefgh".to_vec(), vec![7u8; 40]];
+    let entries: Vec<EntrySpec> = values.into_iter().enumerate().map(|(i, a)| EntrySpec { variant: None, vals: vec![Val::A(a), Val::U(1000 + i as u64)] }).collect();
+    let n = entries.len();
+    let spec = DirSpec { schema, entries, indexes: simple_index(n) };
+    let mut r = eval("D-arraylen", &spec, None);
+    r.id = format!("D-arraylen:{kind:?}:{prefix}:{long}");
+    r.sample = json!({"tier":"D-arraylen","kind":format!("{kind:?}"),"prefix":prefix,"longest_array":long});
+    if let Some(v) = &mut r.violation {
+        v.2 = json!({"engine":"schemamc","sub":"c02","tier":"D-arraylen","kind":format!("{kind:?}"),"prefix":prefix,"longest_array":long});
+    }
+    r
 }
 
 fn tail_spec(count: usize) -> (DirSpec, usize) {
@@ -732,13 +765,18 @@ fn c02(args: &Args) -> ! {
     let mut rep = Report::new(
         "schemamc",
         "C02",
-        "every schema/entry-set of tiers A (one column, all multisets of boundary values, values repeated 3..5 times), B (all ordered pairs/triples of property kinds x constant/varying), C (variants: common x 1..3 variants from a menu incl. zero-width/empty/33-byte ones x 0..2 entries each x 2 orders), D (shared stores, key-width and 64 KiB tail boundaries), E (all index windows on <=4 entries, two indexes), large structured stores; a case is non-trivial when it holds at least one entry; distinct by canonical spec",
+        "every schema/entry-set of tiers A (one column, all multisets of boundary values, values repeated 3..5 times), B (all ordered pairs/triples of property kinds x constant/varying), C (variants: common x 1..3 variants from a menu incl. zero-width/empty/33-byte ones x 0..2 entries each x 2 orders), D (shared stores, key-width and 64 KiB tail boundaries, longest array of a column of 255 / 256 / 65535 / 65536 / 70000 bytes x 3 prefixes x 2 store kinds), E (all index windows on <=4 entries, two indexes), large structured stores; a case is non-trivial when it holds at least one entry; distinct by canonical spec",
     );
     if let Some(p) = &args.replay {
         let j: J = serde_json::from_str(&std::fs::read_to_string(p).expect("replay file")).unwrap();
         let case = if j.get("case").is_some() { &j["case"] } else { &j };
         let r = match case["tier"].as_str() {
             Some("D-tail") => tail_case(case["count"].as_u64().unwrap() as usize),
+            Some("D-arraylen") => arraylen_case(
+                if case["kind"] == json!("Indexed") { StoreKind::Indexed } else { StoreKind::Plain },
+                case["prefix"].as_u64().unwrap() as usize,
+                case["longest_array"].as_u64().unwrap() as usize,
+            ),
             _ if case.get("spec").is_some() => eval("replay", &DirSpec::from_json(&case["spec"]), None),
             _ => {
                 eprintln!("this replay names a built-in case; run the tier instead");
